@@ -164,9 +164,32 @@ fn check_session(sess: &Session, msgs: &[Msg], exports: &[ExportReq], start: u64
         );
     }
 
-    // (b) the reference is the sender, hpke the receiver
+    // (b) the reference is the sender, hpke the receiver. Mostly the reference derives its ephemeral
+    // key from ikmE like everybody else; in some cases it picks the ephemeral PRIVATE key itself
+    // (tiny scalars 1..=3, so enc is the generator or a small multiple; for the NIST curves also
+    // n-1..n-3) - values no RNG preimage is known for, yet perfectly valid encapsulations
     let ikm_e2 = sess.ikm_e2();
-    let (enc2, ks2) = match r::setup_s(&sess.sender_in(&keys, &ikm_e2)) {
+    let explicit_sk: Option<Vec<u8>> = match (sess.stream[157] % 16, suite.kem.curve()) {
+        (k @ 0..=2, Some(c)) => {
+            let mut v = vec![0u8; c.fb];
+            v[c.fb - 1] = k + 1;
+            Some(v)
+        }
+        (k @ 3..=5, Some(c)) => {
+            let mut small = vec![0u64; c.k()];
+            small[0] = (k - 2) as u64;
+            Some(crate::refmodel::arith::to_be(&crate::refmodel::arith::sub_plain(&c.n, &small).0, c.fb))
+        }
+        _ => None,
+    };
+    let reference = match &explicit_sk {
+        Some(sk) => {
+            obs.label("reference-sender:explicit-ephemeral-scalar");
+            r::setup_s_with_sk(&sess.sender_in(&keys, &ikm_e2), sk)
+        }
+        None => r::setup_s(&sess.sender_in(&keys, &ikm_e2)),
+    };
+    let (enc2, ks2) = match reference {
         Some(x) => x,
         None => return Verdict::skip("reference SetupS rejects the inputs (second ephemeral)"),
     };
@@ -287,7 +310,7 @@ impl Property for P {
     fn rule(&self) -> String {
         "Generated: (suite of 48, mode, ikmR, ikmS, psk>=1B, psk_id>=1B, info, RNG stream, 0..=6 messages, 0..=3 exports with L<=255*Nh); \
          in 20% of the cases the first message is at a non-zero sequence position (byte-carry boundaries, log-uniform; hpke contexts placed through the hook); swept: all 48x4 suite/mode cells with a fixed script, every sequence byte-carry boundary x 3 AEADs; replayed: 6 verified RFC 9180 anchors and 243 golden vectors through hpke itself. \
-         Oracle: independent RFC 9180 reference model (own HKDF, own curve arithmetic), hpke-as-sender and hpke-as-receiver. \
+         Oracle: independent RFC 9180 reference model (own HKDF, own curve arithmetic), hpke-as-sender and hpke-as-receiver; as a sender the reference sometimes chooses the ephemeral private key itself (1..3, n-1..n-3 on the NIST curves: enc is the generator or a small multiple of it). \
          Non-trivial: a non-Base mode, or >=2 messages (nonce increments), or non-empty info with non-empty aad, or a committed vector; distinct by case encoding."
             .into()
     }
